@@ -59,6 +59,8 @@ def scenarios(ctx):
         w = PW.rand_world(rng, nsamples={"single": 1, "two": 2, "trio": 3, "quartet": 4}[fam], nchroms=1, ped=ped,
                           max_sites=rng.choice([4, 7]), depth=rng.choice([(3, 8), (10, 20)]), het_prob=0.9, kinds=("snv",))
         w["opts"] = {"ped": bool(ped), "max_coverage": rng.choice([4, 5, 6, 8, 15])}
+        if rng.random() < 0.25:
+            PW.add_decoys(rng, w)
         scs.append({"kind": "pipeline", "world": w})
     return scs
 
